@@ -173,10 +173,13 @@ theorem runOpsO_frame (cx : DCtx) (c : TokenCfg) (ops : List Op) (s : DState) (h
       · have hne : k ≠ n := fun e => hko (e ▸ hkey)
         rw [h]; exact erase_mem_iff _ _ _ _ hne
 
-/-- every position under key `k`, and every book row named `k` (where a bought position takes its expiry from), expires at `T`
-    or later -/
-def ExpOk (k : String) (T : Int) (s : DState) : Prop :=
-  (∀ p, (k, p) ∈ s.positions → T ≤ p.expiry) ∧ (∀ i ∈ s.book, i.name = k → T ≤ i.expiry)
+/-- every position under key `k`, and every book row named `k` (where a bought position takes its expiry from), has an expiry
+    satisfying `P` -/
+def ExpP (P : Int → Prop) (k : String) (s : DState) : Prop :=
+  (∀ p, (k, p) ∈ s.positions → P p.expiry) ∧ (∀ i ∈ s.book, i.name = k → P i.expiry)
+
+/-- … expires at `T` or later -/
+abbrev ExpOk (k : String) (T : Int) (s : DState) : Prop := ExpP (fun e => T ≤ e) k s
 
 theorem alist_get_mem {m : AList String Position} {k : String} {p : Position} (h : AList.get? m k = some p) : (k, p) ∈ m := by
   simp only [AList.get?, Option.map_eq_some_iff] at h
@@ -186,21 +189,21 @@ theorem alist_get_mem {m : AList String Position} {k : String} {p : Position} (h
   simp only [decide_eq_true_eq] at hk
   rw [← hk]; exact hm
 
-theorem expOk_setAsks {k : String} {T : Int} {book : List Instr} (h : ∀ i ∈ book, i.name = k → T ≤ i.expiry) (n : String) (ls : List Level) :
-    ∀ i ∈ setAsks book n ls, i.name = k → T ≤ i.expiry := by
+theorem expOk_setAsks {k : String} {P : Int → Prop} {book : List Instr} (h : ∀ i ∈ book, i.name = k → P i.expiry) (n : String) (ls : List Level) :
+    ∀ i ∈ setAsks book n ls, i.name = k → P i.expiry := by
   intro i hi
   obtain ⟨i0, hi0, rfl⟩ := List.mem_map.mp hi
   split <;> exact h i0 hi0
 
-theorem expOk_setBids {k : String} {T : Int} {book : List Instr} (h : ∀ i ∈ book, i.name = k → T ≤ i.expiry) (n : String) (ls : List Level) :
-    ∀ i ∈ setBids book n ls, i.name = k → T ≤ i.expiry := by
+theorem expOk_setBids {k : String} {P : Int → Prop} {book : List Instr} (h : ∀ i ∈ book, i.name = k → P i.expiry) (n : String) (ls : List Level) :
+    ∀ i ∈ setBids book n ls, i.name = k → P i.expiry := by
   intro i hi
   obtain ⟨i0, hi0, rfl⟩ := List.mem_map.mp hi
   split <;> exact h i0 hi0
 
 /-- the strategy's calls keep `ExpOk`: a bought position takes the expiry of its book row, a sold one keeps its own -/
-theorem step_expOk (cx : DCtx) (c : TokenCfg) (s : DState) (o : Op) (ho : o ≠ .update) (k : String) (T : Int) (h : ExpOk k T s) :
-    ExpOk k T (step cx c s o).2 := by
+theorem step_expP (cx : DCtx) (c : TokenCfg) (s : DState) (o : Op) (ho : o ≠ .update) (k : String) (P : Int → Prop) (h : ExpP P k s) :
+    ExpP P k (step cx c s o).2 := by
   cases o with
   | update => exact absurd rfl ho
   | buy r =>
@@ -287,13 +290,19 @@ theorem step_expOk (cx : DCtx) (c : TokenCfg) (s : DState) (o : Op) (ho : o ≠ 
       · exact h
       · split <;> exact h
 
-theorem runOpsO_expOk (cx : DCtx) (c : TokenCfg) (ops : List Op) (s : DState) (hops : ∀ o ∈ ops, o ≠ Op.update)
-    (k : String) (T : Int) (h : ExpOk k T s) : ExpOk k T (runOpsO cx c s ops).2.1 := by
+theorem runOpsO_expP (cx : DCtx) (c : TokenCfg) (ops : List Op) (s : DState) (hops : ∀ o ∈ ops, o ≠ Op.update)
+    (k : String) (P : Int → Prop) (h : ExpP P k s) : ExpP P k (runOpsO cx c s ops).2.1 := by
   induction ops generalizing s with
   | nil => exact h
   | cons o os ih =>
     rw [runOpsO_cons]
-    exact ih _ (fun o' ho' => hops o' (List.mem_cons_of_mem _ ho')) (step_expOk cx c s o (hops o List.mem_cons_self) k T h)
+    exact ih _ (fun o' ho' => hops o' (List.mem_cons_of_mem _ ho')) (step_expP cx c s o (hops o List.mem_cons_self) k P h)
+
+theorem step_expOk (cx : DCtx) (c : TokenCfg) (s : DState) (o : Op) (ho : o ≠ .update) (k : String) (T : Int) (h : ExpOk k T s) :
+    ExpOk k T (step cx c s o).2 := step_expP cx c s o ho k _ h
+
+theorem runOpsO_expOk (cx : DCtx) (c : TokenCfg) (ops : List Op) (s : DState) (hops : ∀ o ∈ ops, o ≠ Op.update)
+    (k : String) (T : Int) (h : ExpOk k T s) : ExpOk k T (runOpsO cx c s ops).2.1 := runOpsO_expP cx c ops s hops k _ h
 
 /-- the state `update()` runs on in a bar: after the strategy's calls (and the second `set_market_status` when one of
     them was a successful trade) -/
@@ -332,14 +341,18 @@ theorem midState_frame (cx : DCtx) (c : TokenCfg) (s : DState) (b : Bar) (hops :
     · exact h4 k hk p
     · exact h4 k hk p
 
-theorem midState_expOk (cx : DCtx) (c : TokenCfg) (s : DState) (b : Bar) (hops : ∀ o ∈ b.ops, o ≠ Op.update)
-    (k : String) (T : Int) (hpos : ∀ p, (k, p) ∈ s.positions → T ≤ p.expiry) (hbook : ∀ i ∈ b.book, i.name = k → T ≤ i.expiry) :
-    ∀ p, (k, p) ∈ (midState cx c s b).positions → T ≤ p.expiry := by
-  have h := runOpsO_expOk cx c b.ops (setStatus s b) hops k T ⟨hpos, hbook⟩
+theorem midState_expP (cx : DCtx) (c : TokenCfg) (s : DState) (b : Bar) (hops : ∀ o ∈ b.ops, o ≠ Op.update)
+    (k : String) (P : Int → Prop) (hpos : ∀ p, (k, p) ∈ s.positions → P p.expiry) (hbook : ∀ i ∈ b.book, i.name = k → P i.expiry) :
+    ∀ p, (k, p) ∈ (midState cx c s b).positions → P p.expiry := by
+  have h := runOpsO_expP cx c b.ops (setStatus s b) hops k P ⟨hpos, hbook⟩
   unfold midState
   split
   · exact h.1
   · exact h.1
+
+theorem midState_expOk (cx : DCtx) (c : TokenCfg) (s : DState) (b : Bar) (hops : ∀ o ∈ b.ops, o ≠ Op.update)
+    (k : String) (T : Int) (hpos : ∀ p, (k, p) ∈ s.positions → T ≤ p.expiry) (hbook : ∀ i ∈ b.book, i.name = k → T ≤ i.expiry) :
+    ∀ p, (k, p) ∈ (midState cx c s b).positions → T ≤ p.expiry := midState_expP cx c s b hops k _ hpos hbook
 
 end Deribit
 
